@@ -253,18 +253,10 @@ Proof. vm_compute. split; reflexivity. Qed.
    the result of another directive; the replacement may itself be required or be replaced by another directive
    (chains, swaps).  expected_gomod = every requirement rewritten by the directive that applies to it, plus the
    stdlib entry carrying the toolchain directive's version or else the go directive's.
-   The full statement is FALSE for the extractor: a version-less directive whose left side is the replacement path
-   of an EARLIER directive is matched against the already replaced entries (a => b, b => c reports c for a;
-   a => b, b => a collapses both to a).  KNOWN_FINDINGS.d/C03.json: gomod-versionless-replace-transitive. *)
-Theorem gomod_replace_chain_refuted :
-  exists rs, wf_gomod_base rs = true /\ extract_gomod (struct_of_gomod rs) <> Ok (expected_gomod rs).
-Proof. exact gomod_chain_refuted_lemma. Qed.
-Print Assumptions gomod_replace_chain_refuted.
-
-(* on the domain gomod_chain_ok (no version-less directive names an earlier directive's replacement) - which still
-   contains chains through version-specific directives, chains listed right-to-left, replacements that are required
-   modules - the extractor is exact: distinct required paths, at most one directive per old path, resulting
-   (name, version) pairs pairwise different *)
+   The extractor matches every directive against the original requirement names (after the fix of the former known
+   finding gomod-versionless-replace-transitive, KNOWN_FINDINGS.d/C03.json), so chains a => b, b => c and swaps
+   a => b, b => a in any order, with or without versions, are inside the domain: distinct required paths, at most one
+   directive per old path, resulting (name, version) pairs pairwise different *)
 Theorem gomod_struct_exact : forall rs, wf_gomod rs = true ->
   extract_gomod (struct_of_gomod rs) = Ok (expected_gomod rs).
 Proof. exact gomod_struct_exact_lemma. Qed.
@@ -281,14 +273,13 @@ Proof. vm_compute. reflexivity. Qed.
 Example gomod_example_run :
   extract_gomod (struct_of_gomod ex_gomod) = Ok [([120], [57]); ([46;46;47;108], []); ([99], [51]); ([115;116;100;108;105;98], [49;46;50;50;46;51])].
 Proof. vm_compute. reflexivity. Qed.
-(* a chain inside the domain: b is required and replaced, a is replaced by b; the directive for b is listed first *)
-Definition ex_gomod_chain : gomod_recs :=
-  {| gq_requires := [([97], [49;46;48]); ([98], [50;46;48])];
-     gq_replaces := [ {| rr_old := [98]; rr_oldv := []; rr_new := [99]; rr_newv := [51] |};
-                      {| rr_old := [97]; rr_oldv := []; rr_new := [98]; rr_newv := [52] |} ];
-     gq_go := []; gq_toolchain := [] |}.
+(* chains and swaps without versions (the witnesses of the former known finding): a is reported as b, not as c *)
 Example gomod_chain_example :
-  wf_gomod ex_gomod_chain = true /\ extract_gomod (struct_of_gomod ex_gomod_chain) = Ok [([98], [52]); ([99], [51])].
+  wf_gomod gomod_chain_witness = true /\ extract_gomod (struct_of_gomod gomod_chain_witness) = Ok [([98], [49;46;49;46;48])].
+Proof. vm_compute. split; reflexivity. Qed.
+Example gomod_swap_example :
+  wf_gomod gomod_swap_witness = true /\
+  extract_gomod (struct_of_gomod gomod_swap_witness) = Ok [([98], [49;46;49;46;48]); ([97], [49;46;50;46;48])].
 Proof. vm_compute. split; reflexivity. Qed.
 
 (* ------------------------------------------------------------------ go.mod from bytes *)
